@@ -201,6 +201,10 @@ def gen(ctx):
     return cases
 
 
+def cfgs_for_sequences():
+    return [(False, False, True, b"app:"), (False, False, False, b""), (True, True, False, b"ns:")]
+
+
 def model_supported(c):
     """the Lean `Call` type covers str/bytes keys, bytes/str/int values, int-or-not integer arguments"""
     def okv(v):
@@ -277,6 +281,40 @@ def main(argv):
         if model_supported(c) and not serde_flags:
             model_lines.append(f"call {cfg_tok(au, utf8, dnr, False, pfx)} open=1 {call_tokens(c)}")
             metas.append(("model", case, (sent, r), tags))
+    # ---- sequences on ONE client: stats arguments that are also used as keys, repeated keys, alternating prefixes of use ----------
+    seq_lines, seq_metas = [], []
+    for (au, utf8, dnr, pfx) in [c[:4] for c in cfgs_for_sequences()]:
+        srv = RefServer()
+        world = World(server=lambda conn, data: [srv.feed(conn.id, data)])
+        client = Client(("h", 1), socket_module=FakeSocketModule(world), allow_unicode_keys=au, encoding="utf8" if utf8 else "ascii", default_noreply=dnr, key_prefix=pfx)
+        steps = [("stats", ("items",)), ("call", {"op": "get", "k": "items"}), ("call", {"op": "incr", "k": "settings", "d": 1}), ("stats", ("settings",)),
+                 ("stats", (b"sizes",)), ("call", {"op": "get_many", "ks": [b"a", b"sizes", b"b"]}), ("call", {"op": "set", "k": "items", "v": b"v", "nr": True}),
+                 ("call", {"op": "delete", "k": "slabs", "nr": False}), ("stats", ("slabs",)), ("call", {"op": "gets", "k": "slabs"}),
+                 ("call", {"op": "touch", "k": "items", "e": 3, "nr": False}), ("call", {"op": "get", "k": "items"})]
+        for n, (kind, arg) in enumerate(steps):
+            world.tag = ("seq", n)
+            before = sum(len(c.sent) for c in world.conns)
+            if kind == "stats":
+                try:
+                    client.stats(*arg)
+                except Exception:
+                    pass
+                continue
+            r = run_call(client, arg)
+            sent = b"".join(d for c in world.conns for t, d in c.sent if t == ("seq", n))
+            want = intent(arg, au, utf8, dnr, pfx)
+            case = {"cfg": {"au": au, "utf8": utf8, "default_noreply": dnr, "prefix": hx(pfx)}, "sequence_step": n, "steps_before": [repr(x)[:50] for x in steps[:n]],
+                    "call": repr(arg), "sent": hx(sent)}
+            ctx.case(("seq", au, utf8, dnr, pfx, n))
+            ctx.count("one-client-sequences")
+            if want and want not in ("OUT", "NOTHING"):
+                seq_lines.append("srv.parse data=" + hx(sent))
+                seq_metas.append((case, want))
+    if ctx.lean.build_ok:
+        for (case, want), o in zip(seq_metas, ctx.driver.batch(seq_lines)):
+            if o != "ok " + want:
+                ctx.violation("in a sequence of calls on one client, the bytes sent are not the intended command (same prefixed key)", dict(case, parsed=o[:200], intended=want[:200]),
+                              tags=["sequence"])
     if ctx.lean.build_ok:
         outs = iter(ctx.driver.batch(parse_lines + model_lines))
         for kind, case, want, tags in [m for m in metas if m[0] == "parse"]:
